@@ -15,8 +15,10 @@ from mc.props.common import canon, IT, PT, Textgrid, PE, errors, call, ents
 from praatio.utilities import utils
 
 G = D.unit_grid(5)
-LABS = ("a", "ab", "b", "A", "")
-QUERIES = ("a", "b", "ab", "A", "", "a|b", "^a$", ".", "b+", "B")
+LABS = ("a", "ab", "b", "A", "", "a 1")
+QUERIES = ("a", "b", "ab", "A", "", "a|b", "^a$", ".", "b+", "B",
+           # pairs of regular expressions that differ only in letter case and mean different things
+           r"\S", r"\s", r"\W", r"\w", r"^\D+$", r"^\d+$", r"\Bb", r"\bb")
 
 
 def _check_find(case):
